@@ -394,7 +394,45 @@ func VerifyLemma(L *Loaded, name string, ct *Contract) (res *FuncResult) {
 	for _, cl := range ct.Requires {
 		st.Assume(fr.evalClauseWith(cl, lookupWith(vals), st, nil))
 	}
-	if ct.Induction != "" {
+	if strings.HasSuffix(ct.Induction, " general") {
+		// induction hypothesis quantified over the other parameters:
+		// forall others: (v >= 1 && requires[v-1]) ==> ensures[v-1]
+		iv := strings.TrimSuffix(ct.Induction, " general")
+		v, ok := vals[iv]
+		if !ok || v.T.Sort != SInt {
+			fail("lemma %s: induction variable %s is not an integer parameter", name, iv)
+		}
+		type bv struct {
+			name string
+			sort Sort
+		}
+		var bvs []bv
+		hv := map[string]Val{}
+		for i, p := range cfn.Params {
+			if p.Name() == iv {
+				hv[iv] = TV(Sub(v.T, IntLit(1)))
+				continue
+			}
+			n := fmt.Sprintf("ih!%d", i)
+			srt := vc.specialSort(p.Type())
+			bvs = append(bvs, bv{n, srt})
+			hv[p.Name()] = TV(Term{S: n, Sort: srt})
+		}
+		vc.pushScope()
+		var reqs, enss []Term
+		for _, cl := range ct.Requires {
+			reqs = append(reqs, fr.evalClauseWith(cl, lookupWith(hv), st, nil))
+		}
+		for _, cl := range ct.Ensures {
+			enss = append(enss, fr.evalClauseWith(cl, lookupWith(hv), st, nil))
+		}
+		body := vc.popScope(Implies(And(reqs...), And(enss...)))
+		var decl []string
+		for _, b := range bvs {
+			decl = append(decl, fmt.Sprintf("(%s %s)", b.name, b.sort))
+		}
+		st.Assume(Implies(Le(IntLit(1), v.T), T(SBool, "(forall (%s) %s)", strings.Join(decl, " "), body.S)))
+	} else if ct.Induction != "" {
 		v, ok := vals[ct.Induction]
 		if !ok || v.T.Sort != SInt {
 			fail("lemma %s: induction variable %s is not an integer parameter", name, ct.Induction)
